@@ -1,3 +1,4 @@
+import MLPE.Proofs.Safe
 import MLPE.Proofs.PlainDemo
 import MLPE.Proofs.PlainSol
 
@@ -156,5 +157,41 @@ example : ∃ s', liveRun demoDiamond init (demoFull ++ [.run 0 [] 0]) = some s'
   rw [this] at hv3
   cases hv3
   exact ⟨s', hs', hv, this⟩
+
+/-! ### Pipelines with switches (no one-of, no recurrent subgraph): safety under every schedule
+
+`Proofs/Safe.lean` proves an invariant of every reachable state of such a program — stored results, recorded switch
+decisions, body arguments, the outcome — relative to a solution `val` of the dataflow equations with switches
+(`SolutionSw`).  It is partial correctness: it does not say that the run ends (for plain pipelines `C02` does). -/
+
+/-- a switch pipeline that returns a value returns the dataflow value of its output node, under every schedule -/
+theorem C01_switch_value (P : Program) (val : Node → Option Val) (hsw : SwP P) (hsol : SolutionSw P val)
+    (s : St) (h : Reach P s) (v : Val) (ho : s.outcome = some (.value v)) : val P.g.output = some v :=
+  (safe_reach hsw hsol h).data.out (.value v) ho
+
+/-- whatever the schedules, two runs of a switch pipeline that return values return the same value -/
+theorem C01_switch_values_agree (P : Program) (val : Node → Option Val) (hsw : SwP P) (hsol : SolutionSw P val)
+    (s₁ s₂ : St) (h₁ : Reach P s₁) (h₂ : Reach P s₂) (v₁ v₂ : Val) (ho₁ : s₁.outcome = some (.value v₁))
+    (ho₂ : s₂.outcome = some (.value v₂)) : v₁ = v₂ := by
+  have a := C01_switch_value P val hsw hsol s₁ h₁ v₁ ho₁
+  have b := C01_switch_value P val hsw hsol s₂ h₂ v₂ ho₂
+  rw [a] at b; exact Option.some.inj b
+
+/-- a switch pipeline never returns a value when its output has none in the dataflow semantics (a required node failed,
+or a decision named no case): a failure is never masked -/
+theorem C01_switch_value_excludes_failure (P : Program) (val : Node → Option Val) (hsw : SwP P)
+    (hsol : SolutionSw P val) (s : St) (h : Reach P s) (hnone : val P.g.output = none) (v : Val) :
+    s.outcome ≠ some (.value v) := by
+  intro ho
+  have := C01_switch_value P val hsw hsol s h v ho
+  rw [hnone] at this; cases this
+
+/-- the stored results of two runs of a switch pipeline agree node by node -/
+theorem C01_switch_results_agree (P : Program) (val : Node → Option Val) (hsw : SwP P) (hsol : SolutionSw P val)
+    (s₁ s₂ : St) (h₁ : Reach P s₁) (h₂ : Reach P s₂) (n : Node) (v₁ v₂ : Val) (hr₁ : s₁.res n = some v₁)
+    (hr₂ : s₂.res n = some v₂) : v₁ = v₂ := by
+  have a := ((safe_reach hsw hsol h₁).data.agree n v₁ hr₁).1
+  have b := ((safe_reach hsw hsol h₂).data.agree n v₂ hr₂).1
+  rw [a] at b; exact Option.some.inj b
 
 end MLPE.Eng
